@@ -200,5 +200,30 @@ def run_split(run, drv):
                 _, mrows = model_pieces(mans)
                 model = ["ok", mrows] if mrows is not None else ["err", mans[1]]
                 run.corr("td." + name, [n, s, list(shape), dim], impl, model)
+    # ---- coordinate-map tensors (Model/C12Tensor.lean): split along d, cat back, every rank-1..3 shape over {1,2,3} (+ a 5), every d, ss
+    tc = []
+    dims = [1, 2, 3, 5]
+    for rank in (1, 2, 3):
+        for shape in __import__("itertools").product(dims[:3] if rank == 3 else dims, repeat=rank):
+            for d in range(rank):
+                for ss in range(1, shape[d] + 2):
+                    tc.append((list(shape), d, ss))
+    a_t = [parse_sx(a) for a in ask_batched(drv, [sx("c12.tcat", sh, d, ss) for sh, d, ss in tc])]
+    for (sh, d, ss), m in zip(tc, a_t):
+        run.case(("tcat", tuple(sh), d, ss))
+        numel = 1
+        for x in sh:
+            numel *= x
+        x = torch.arange(numel).reshape(sh)
+        td = TensorDict({"x": x}, batch_size=sh)
+        try:
+            with time_limit(60):
+                r = torch.cat(td.split(ss, d), d)
+            impl = [list(r.batch_size), r["x"].reshape(-1).tolist()]
+        except TimeoutError as e:
+            raise Infra(f"split/cat timed out: {e}")
+        except Exception as e:  # noqa: BLE001
+            impl = ["err", err_kind(e)]
+        run.corr("tensor(split+cat along d)", [sh, d, ss], impl, [list(m[0]), list(m[1])])
     run.sample({"stream": "split", "case": "n=7 chunksize=3 generator", "model": drv.ask(sx("c12.split", 7, 3, None, 2, True))})
     run.sample({"stream": "split", "case": "n=0 num_chunks=3 generator", "model": drv.ask(sx("c12.split", 0, None, 3, 2, True))})
